@@ -203,3 +203,4 @@ proof!(c14_non_array, 5, {
     forget(x);
     forget(vals);
 });
+
